@@ -18,8 +18,8 @@ Proof. intros I Es. destruct (joined s) eqn:Ej; [|reflexivity]. destruct (I_join
 Lemma emitted_of_app l1 l2 : emitted_of (l1 ++ l2) = emitted_of l1 ++ emitted_of l2.
 Proof. apply flat_map_app. Qed.
 
-Lemma ends_snoc_other t c m : (forall b, m <> MEnd b) -> ends t (c ++ [m]) = ends t c.
-Proof. intro H. rewrite ends_app. destruct m as [b|b|n]; cbn; try apply app_nil_r. exfalso. eapply H. reflexivity. Qed.
+Lemma ends_snoc_other t c b : ends t (c ++ [MStart b]) = ends t c.
+Proof. rewrite ends_app. cbn. apply app_nil_r. Qed.
 Lemma ends_snoc_end t c b : ends t (c ++ [MEnd b]) = ends t c ++ (if fst b =? t then [b] else []).
 Proof. rewrite ends_app. cbn. destruct (fst b =? t); reflexivity. Qed.
 
@@ -238,7 +238,7 @@ Proof.
   assert (Hnb : ~ In b (chain s t)) by (apply not_in_chain_norec; assumption).
   assert (Hch : forall t', chain s5 t' = chain s t' ++ (if t' =? t then [b] else [])).
   { intro t'. unfold chain, pend, curr_l, s5; sp. rewrite S14, S11, S10, S8, S4. unfold s3; sp. rewrite Es.
-    rewrite ends_snoc_other by (intros; discriminate). unfold updt.
+    rewrite ends_snoc_other. unfold updt.
     destruct (Nat.eqb_spec t' t) as [->|Hne]; [rewrite Hc|]; rewrite <- ?app_assoc; rewrite ?app_nil_r; reflexivity. }
   assert (Hda : data s5 = upd (data s) b []) by (unfold s5; sp; rewrite S1; reflexivity).
   assert (Hfl : flag s5 = upd (flag s) b (set_rec (flag s b))) by (unfold s5; sp; rewrite S2; reflexivity).
@@ -392,7 +392,7 @@ Proof.
   { intros t' x Hx. destruct (I_own s I t' x Hx) as (Hf & Hl & _).
     split; intro; subst x; cbn [fst snd b0 b1] in *; subst t'; lia. }
   assert (Hch : forall t', chain s' t' = chain s t' ++ (if t' =? t then [b0] else [])).
-  { intro t'. unfold chain, pend, curr_l, s'; sp. rewrite Es. rewrite ends_snoc_other by (intros; discriminate).
+  { intro t'. unfold chain, pend, curr_l, s'; sp. rewrite Es. rewrite ends_snoc_other.
     unfold updt. destruct (Nat.eqb_spec t' t) as [->|Hne]; [rewrite Hc|]; rewrite <- ?app_assoc; rewrite ?app_nil_r; reflexivity. }
   assert (Hda : forall x, data s' x = if bid_eqb x b1 then [] else if bid_eqb x b0 then [] else data s x) by reflexivity.
   assert (Hdat : forall t' x, In x (chain s t') -> data s' x = data s x).
@@ -425,5 +425,60 @@ Proof.
     unfold updt. destruct (Nat.eqb_spec t' t) as [->|Hne].
     + rewrite Hc in CK. apply chan_ok_app_start; [reflexivity|assumption].
     + apply chan_ok_app_other; [cbn; congruence|assumption].
+  - unfold s'; sp. rewrite chan_lost_app. cbn [chan_lost]. rewrite N.add_0_r. apply I.
+Qed.
+
+(* ------------------------------------------------------------------ P_exec *)
+Lemma inv_p_exec s s' t : Inv s -> p_exec s t = Some s' -> Inv s'.
+Proof.
+  intros I H. unfold p_exec in H. destruct (p_live s t) eqn:L; [|discriminate].
+  apply p_live_spec in L. destruct L as (Hn & Hd & Es).
+  destruct (curr s t) as [i|] eqn:Hc; [|discriminate]. injection H as <-.
+  set (n := nbuf s t). set (b0 := (t, n)). set (b1 := (t, S n)). set (bo := (t, i)).
+  set (s' := set_chan _ _).
+  assert (Hne01 : b0 <> b1) by (unfold b0, b1; intro E; injection E; lia).
+  assert (Hnotin : forall t' x, In x (chain s t') -> x <> b0 /\ x <> b1).
+  { intros t' x Hx. destruct (I_own s I t' x Hx) as (Hf & Hl & _).
+    split; intro; subst x; cbn [fst snd b0 b1] in *; subst t'; unfold n in *; lia. }
+  assert (Hch : forall t', chain s' t' = chain s t' ++ (if t' =? t then [b0] else [])).
+  { intro t'. unfold chain, pend, curr_l, s'; sp. rewrite Es.
+    change (chan s ++ [MStart b0; MExec bo]) with (chan s ++ [MStart b0] ++ [MExec bo]).
+    rewrite (app_assoc (chan s) [MStart b0] [MExec bo]), ends_app, ends_snoc_other. cbn [ends flat_map fst bo app].
+    unfold updt. destruct (Nat.eqb_spec t' t) as [->|Hne].
+    - rewrite Hc, Nat.eqb_refl. rewrite <- !app_assoc. reflexivity.
+    - destruct (Nat.eqb_spec t t'); [congruence|]. rewrite !app_nil_r. reflexivity. }
+  assert (Hda : forall x, data s' x = if bid_eqb x b1 then [] else if bid_eqb x b0 then [] else data s x) by reflexivity.
+  assert (Hdat : forall t' x, In x (chain s t') -> data s' x = data s x).
+  { intros t' x Hx. destruct (Hnotin t' x Hx) as [N0 N1]. rewrite Hda.
+    destruct (bid_eqb_spec x b1); [contradiction|]. destruct (bid_eqb_spec x b0); [contradiction|]. reflexivity. }
+  assert (Hflg : forall t' x, In x (chain s t') -> flag s' x = flag s x).
+  { intros t' x Hx. destruct (Hnotin t' x Hx) as [N0 N1]. unfold s'; sp. rewrite !upd_other by assumption. reflexivity. }
+  apply Inv_intro.
+  - unfold InvB. change (ws s') with (ws s). change (bwl s') with (bwl s).
+    refine (conj _ (conj _ (conj _ (conj (I_idle s I) (conj (I_wt s I) (conj (I_one s I) _)))))).
+    + intro t'. unfold content, emitted. rewrite Hch. change (file s') with (file s). change (plog s') with (plog s).
+      pose proof (I_content s I t') as E. unfold content, emitted in E. rewrite <- E. rewrite flat_map_app.
+      rewrite (flat_map_ext_in (data s') (data s) (chain s t')) by (intros; eapply Hdat; eassumption).
+      destruct (Nat.eqb_spec t' t) as [->|Hne]; cbn [flat_map]; rewrite ?app_nil_r; [|reflexivity].
+      rewrite Hda. destruct (bid_eqb_spec b0 b1); [contradiction|]. rewrite bid_eqb_refl. rewrite app_nil_r. reflexivity.
+    + intro t'. rewrite Hch. destruct (Nat.eqb_spec t' t) as [->|Hne]; [|rewrite app_nil_r; apply (I_nodup s I)].
+      apply NoDup_app_intro; [apply (I_nodup s I)|repeat constructor; tauto|].
+      intros x H1 [<-|[]]. destruct (Hnotin t b0 H1) as [N _]. congruence.
+    + intros t' x Hx. rewrite Hch in Hx. apply in_app_or in Hx. destruct Hx as [Hx|Hx].
+      * destruct (I_own s I t' x Hx) as (Hf & Hl & Hr). split; [assumption|]. split.
+        -- unfold s'; sp. unfold updt. destruct (Nat.eqb_spec t' t) as [->|]; [fold n; unfold n in *; lia|assumption].
+        -- rewrite (Hflg t' x Hx). assumption.
+      * destruct (Nat.eqb_spec t' t) as [->|Hne]; [|destruct Hx]. destruct Hx as [<-|[]]. split; [reflexivity|]. split.
+        -- unfold s'; sp. rewrite updt_same. cbn [snd b0]. lia.
+        -- unfold s'; sp. rewrite upd_other by assumption. rewrite upd_same. reflexivity.
+    + intros w Hw Hwo. destruct (I_wrote s I w Hw Hwo) as (x & r0 & Eh & Hd0). exists x, r0. split; [assumption|].
+      rewrite Hda. destruct (bid_eqb x b1); [reflexivity|]. destruct (bid_eqb x b0); [reflexivity|assumption].
+  - unfold s'; sp. congruence.
+  - unfold s'; sp. intro J. rewrite (not_joined s I Es) in J. discriminate.
+  - intros _ t'. unfold curr_l, s'; sp. pose proof (I_chan s I Es t') as CK. unfold curr_l in CK.
+    unfold updt. destruct (Nat.eqb_spec t' t) as [->|Hne].
+    + rewrite Hc in CK. apply chan_ok_app_exec; [reflexivity|reflexivity|assumption].
+    + change (chan s ++ [MStart b0; MExec bo]) with (chan s ++ [MStart b0] ++ [MExec bo]). rewrite (app_assoc (chan s) [MStart b0] [MExec bo]).
+      apply chan_ok_app_other; [cbn; congruence|]. apply chan_ok_app_other; [cbn; congruence|assumption].
   - unfold s'; sp. rewrite chan_lost_app. cbn [chan_lost]. rewrite N.add_0_r. apply I.
 Qed.
